@@ -242,8 +242,16 @@ func mkDiv(a, b string) string {
 		_ = m
 		return num(q)
 	}
+	if !ok2 && !nonlinearOK {
+		// division by a non-constant: uninterpreted (keeps obligations out of nonlinear arithmetic);
+		// only range facts are known about the result
+		return app("nl.div", a, b)
+	}
 	return app("div", a, b)
 }
+
+// nonlinearOK: use the solver's nonlinear div/mod for variable divisors (set per run by option).
+var nonlinearOK = false
 
 func mkMod(a, b string) string {
 	x, ok1 := isNumLit(a)
@@ -251,6 +259,9 @@ func mkMod(a, b string) string {
 	if ok1 && ok2 && y.Sign() > 0 {
 		_, m := new(big.Int).DivMod(x, y, new(big.Int))
 		return num(m)
+	}
+	if !ok2 && !nonlinearOK {
+		return app("nl.mod", a, b)
 	}
 	return app("mod", a, b)
 }
